@@ -51,7 +51,7 @@ func (c04) Runs(t Tier) int {
 }
 func (c04) RecordWidths() map[string]int { return map[string]int{"ops": 4} }
 func (c04) RequiredProbes() []string {
-	return []string{"seek-on-boundary", "seek-end-relative-on-boundary", "read-crosses-interior-boundary", "read-at-eof", "negative-seek", "readers-interleaved-mid-chunk", "seek-past-end", "extreme-negative-seek", "dedup-dag", "depth>=3", "node-asbytes-mid-history", "second-file-read-in-between", "linksystem-with-node-reifier", "reader-replaced-mid-history"}
+	return []string{"seek-on-boundary", "seek-end-relative-on-boundary", "read-crosses-interior-boundary", "read-at-eof", "negative-seek", "readers-interleaved-mid-chunk", "seek-past-end", "extreme-negative-seek", "dedup-dag", "depth>=3", "node-asbytes-mid-history", "second-file-read-in-between", "linksystem-with-node-reifier", "reader-replaced-mid-history", "drained-through-io-helpers", "drained-from-past-end", "inline-identity-block"}
 }
 
 type c04Op struct {
@@ -216,7 +216,7 @@ func (c04) Run(ts *tape.Set, tier Tier) *Result {
 		ops := ts.T("ops")
 		for i := 0; i < nOps && res.Violation == nil; i++ {
 			ri := ops.Intn(nReaders)
-			kind := ops.Pick(10, 6, 4, 4, 1, 1) // Read, SeekStart, SeekCurrent, SeekEnd, node.AsBytes, replace reader
+			kind := ops.Pick(10, 6, 4, 4, 1, 1, 1) // Read, SeekStart, SeekCurrent, SeekEnd, node.AsBytes, replace reader, drain through io helpers
 			a := ops.Raw()
 			b := ops.Raw()
 			r := readers[ri]
@@ -256,6 +256,60 @@ func (c04) Run(ts *tape.Set, tier Tier) *Result {
 				}
 				readers[ri] = &rd{rs: rs}
 				res.probe("reader-replaced-mid-history")
+				continue
+			}
+			if kind == 6 {
+				// ---- the rest of the file through the standard helpers. They
+				// prefer a reader's optional fast paths (io.WriterTo for io.Copy;
+				// io.ReaderAt is probed too), which must behave like Read does
+				from := r.pos
+				if from > L {
+					from = L
+				}
+				want := content[from:]
+				var got []byte
+				var err error
+				how := []string{"io.Copy", "io.ReadAll", "io.Copy(plain writer)"}[a%3]
+				if ra, ok := r.rs.(io.ReaderAt); ok && L > 0 {
+					off := int64(b % uint64(L))
+					buf := make([]byte, 1+int(b>>32)%64)
+					n, rerr := ra.ReadAt(buf, off)
+					if n < 0 || n > len(buf) || !bytes.Equal(buf[:n], content[off:off+int64(n)]) || (rerr != nil && rerr != io.EOF) || (n < len(buf) && off+int64(n) != L) {
+						res.fail("c04/readat-wrong", "op %d: ReadAt(%d bytes, %d) returned (%d, %v) inconsistent with the content (len %d)", i, len(buf), off, n, rerr, L)
+						return
+					}
+				}
+				switch a % 3 {
+				case 0:
+					var bb bytes.Buffer
+					_, err = io.Copy(&bb, r.rs)
+					got = bb.Bytes()
+				case 1:
+					got, err = io.ReadAll(r.rs)
+				default:
+					var bb bytes.Buffer
+					_, err = io.Copy(struct{ io.Writer }{&bb}, r.rs)
+					got = bb.Bytes()
+				}
+				sc.Ops = append(sc.Ops, c04Op{Reader: ri, Op: how})
+				sig = fnvMix(sig, 5, uint64(ri), a%3, boolU(err == nil))
+				res.probe("drained-through-io-helpers")
+				if r.pos > L {
+					res.probe("drained-from-past-end")
+				}
+				if err != nil {
+					res.fail("c04/drain-error", "op %d: %s from offset %d (len %d) failed: %v", i, how, r.pos, L, err)
+					return
+				}
+				if !bytes.Equal(got, want) {
+					res.fail("c04/drain-wrong-bytes", "op %d: %s from offset %d returned %d bytes, the content from there is %d bytes (or differs)", i, how, r.pos, len(got), len(want))
+					return
+				}
+				if r.pos < L {
+					r.pos = L
+				}
+				r.stalled, r.contRead = 0, false
+				lastReader = ri
 				continue
 			}
 			if kind == 0 {
